@@ -12,3 +12,19 @@ claim('C18', 'Coq proof (refinement of the file store to a write-once map by ind
       'with the real FileSystemArtifactStore on random adversarial operation sequences in a real temporary directory on every run.',
       'Modelled, not verified: pickle/json (a value is only classified by which formats can serialise it; the round trip load(dump(v)) == v is sampled by the harness) and the OS file system (exists/open/unlink as a finite map).',
       design='4 (C18)')
+claim('C16', 'Coq proof (traversal completeness by work-list invariant; soundness/completeness/specificity of validation) + differential run of the real build_dag on defect-injected classes',
+      'Theorems C16_reachable_is_examined, C16_accepts_iff_clean, C16_reachable_defect_rejected, C16_specific_error, C16_specific_recurrent_dest/start, C16_check_order '
+      '(Properties/C16.v): for every declaration set and every placement of defects, the builder model accepts iff no examined class is defective, every node reachable '
+      'from the output is examined, and a single defect yields exactly its error. On every run random valid programs and defect-injected mutations of them (all eight '
+      'defect classes, single and multiple, at reachable and unreachable nodes) are built by the real build_dag and the raised error class is compared with the extracted '
+      'validation model and with the single-defect oracle.',
+      'Modelled, not verified: what Python introspection (inspect.isclass, getmro, signature, __annotations__) decides about one class is abstracted into defect flags; the harness materialises each flag as a real class with that defect.',
+      design='4 (C16)')
+claim('C15', 'Coq proof (work-list traversal invariant; frame lemma for add_edge) for the delivery of directly bound parameters + correspondence of the extracted builder model with the real build_dag + order-free declared relation',
+      'Partial proof, full check. Theorems C15_reachable_is_translated_partial and C15_direct_parameters_delivered_partial (Properties/C15.v): every node the output needs is '
+      'translated and every Input / RecurrentSubGraph parameter of it gets its own dependency edge carrying that parameter name, never dropped, re-targeted or merged later, '
+      'for all declaration sets with distinct sources per node; C15_refuted_duplicate_source is the machine-checked witness of known finding D13. The synthetic switch / '
+      'one-of structures, node attributes, the converse inclusion and order independence are not proved: they are checked on every run by comparing the real build_dag with '
+      'the extracted builder model (nodes, edges, all attributes, node_map) and with an order-free declared relation computed from the declarations.',
+      'Modelled, not verified: Python introspection of annotations. Known finding D13 (duplicate source / conflicting declarations merged silently) is tolerated only on declaration sets satisfying its trigger predicate.',
+      design='4 (C15)')
